@@ -136,6 +136,11 @@ def _adjoint_cells():
 def _default_cells():
     for sde_type, noise_type in itertools.product(sdes.SDE_TYPES, sdes.NOISE_TYPES):
         yield {"kind": "default_method", "sde_type": sde_type, "noise_type": noise_type}
+        if noise_type == "additive" or sde_type == "stratonovich":
+            # the SDE given through the documented specialised methods only (f + g_prod / f_and_g_prod, no g): the documented
+            # default must still be what runs (Ito additive: srk, whose additive step needs no g; Stratonovich: midpoint)
+            for iface in ("f+g_prod", "f_and_g_prod"):
+                yield {"kind": "default_method", "sde_type": sde_type, "noise_type": noise_type, "iface": iface}
         table = sdes.ITO_METHODS if sde_type == "ito" else sdes.STRAT_METHODS
         for method in table:
             if noise_type in table[method]:
@@ -278,18 +283,41 @@ def _run_adjoint(case):
 def _run_default_method(case):
     import torchsde
     sde, y0, ts = _setup(case)
+    if case.get("iface"):
+        base = sde
+
+        class Iface(nn.Module):
+            noise_type, sde_type = base.noise_type, base.sde_type
+        p = Iface()
+        gp = (lambda t, y, w: base.g(t, y) * w) if base.noise_type == "diagonal" else \
+            (lambda t, y, w: torch.bmm(base.g(t, y), w.unsqueeze(-1)).squeeze(-1))
+        if case["iface"] == "f+g_prod":
+            p.f, p.g_prod = base.f, gp
+        else:
+            p.f_and_g_prod = lambda t, y, w: (base.f(t, y), gp(t, y, w))      # noqa: E731
+        p.m = base.m
+        sde = p
     dm = default_method(case["sde_type"], case["noise_type"])
     outs = []
     for method in (None, dm):
         levy = "space-time" if dm == "srk" else "none"
         bm = torchsde.BrownianInterval(t0=0.0, t1=0.2, size=(2, sde.m), dtype=torch.float64, entropy=11,
                                        levy_area_approximation=levy)
-        with torch.no_grad():
-            outs.append(torchsde.sdeint(sde, y0, ts, bm=bm, method=method, dt=0.05))
+        try:
+            with torch.no_grad():
+                outs.append(torchsde.sdeint(sde, y0, ts, bm=bm, method=method, dt=0.05))
+        except (RuntimeError, ValueError) as e:
+            if not case.get("iface") or "has not been provided" not in str(e):
+                raise
+            # a specialised interface may lack a method the default solver needs: then omitting `method` must fail with the
+            # very same explicit error as naming the default
+            outs.append(f"{type(e).__name__}: {e}")
     sig = {"sde_type": case["sde_type"], "noise_type": case["noise_type"]}
-    if not torch.equal(outs[0], outs[1]):
+    same = (outs[0] == outs[1]) if isinstance(outs[0], str) or isinstance(outs[1], str) else torch.equal(outs[0], outs[1])
+    if not same:
         return Result(nontrivial=True, checks=1, fail=Fail(
-            "default_method", f"omitting method differs from method={dm!r} for {sig}", sig))
+            "default_method", f"omitting method differs from method={dm!r} for {sig} (interface {case.get('iface', 'f,g')})",
+            sig))
     # and it must differ from some other accepted method (so that the comparison is not vacuous)
     return Result(nontrivial=True, checks=1, labels=["default_method"])
 
